@@ -13,7 +13,7 @@ use zlib_rs::verif_cpu as cpu;
 pub const INFO: CheckInfo = CheckInfo {
     prop: "C10",
     level: "model_checking",
-    rule: "twin executions over the shared (configuration x input x schedule) families and over decoder corpus streams: the reference execution (all CPU features, zeroed allocations, zeroed output buffers, end-aligned buffers) is compared call by call with (i) every CPU-feature mask {-avx2, -avx2-sse, -pclmulqdq, everything off} via hook H1, (ii) allocator garbage {0xFF, 0xA5}, output-buffer garbage {0xFF, 0x5A} and a stream reused after reset that first processed a DIFFERENT history (compressor: two histories, same payload; decoder: 30 earlier histories, then every short corpus stream incl. invalid ones whose back-references reach before the start of the new stream, compared with a fresh decoder), (iii) buffer misalignment 1, 3, 17, 31, 63 bytes; (iv) threads: a controlled scheduler (E2) runs 2-3 real threads, each driving its own stream (deflate / inflate / checksums), one runnable at a time, with scheduling points at every API call boundary and at every CPU-feature probe inside the library (H1 probe hook; the cached AVX2 detection is reset before each execution) and enumerates ALL schedules with at most 2 (3) preemptions by iterative-preemption-bounding DFS; every thread's outputs, statuses and counters must equal those of the same call list run alone. States = (thread, step) scheduler states, transitions = scheduling decisions; distinct_nontrivial = distinct twin/schedule outcomes (must collapse to the solo outcomes).",
+    rule: "twin executions over the shared (configuration x input x schedule) families and over decoder corpus streams: the reference execution (all CPU features, zeroed allocations, zeroed output buffers, end-aligned buffers) is compared call by call with (i) every CPU-feature mask {-avx2, -avx2-sse, -pclmulqdq, everything off} via hook H1, (ii) allocator garbage {0xFF, 0xA5}, output-buffer garbage {0xFF, 0x5A} and a stream reused after reset that first processed a DIFFERENT history (compressor: two histories, same payload; decoder: 30 earlier histories, then every short corpus stream incl. invalid ones whose back-references reach before the start of the new stream, compared with a fresh decoder), and streams duplicated with deflateCopy / inflateCopy under four allocator fill bytes, (iii) buffer misalignment 1, 3, 17, 31, 63 bytes; (iv) threads: a controlled scheduler (E2) runs 2-3 real threads, each driving its own stream (deflate / inflate / checksums), one runnable at a time, with scheduling points at every API call boundary and at every CPU-feature probe inside the library (H1 probe hook; the cached AVX2 detection is reset before each execution) and enumerates ALL schedules with at most 2 (3) preemptions by iterative-preemption-bounding DFS; every thread's outputs, statuses and counters must equal those of the same call list run alone. States = (thread, step) scheduler states, transitions = scheduling decisions; distinct_nontrivial = distinct twin/schedule outcomes (must collapse to the solo outcomes).",
     assumptions: &["the scheduler is sequentially consistent and cooperative: data races on plain memory that do not change results under some serialisation at the instrumented points are not visible (no race detector pass is run here)", "CPU variants that need another target (NEON, LSX, wasm) or a different build (AVX-512) are not covered by the run-time mask", "sandboxed x86-64 only"],
     bound_quick: "twins: tiny (every 3rd) + shape (stride 9) families, 4 masks, 4 garbage settings, 5 misalignments; threads: 6 thread-program sets, preemption bound 2",
     bound_thorough: "twins on all families; threads: preemption bound 3",
@@ -233,6 +233,7 @@ fn explore_threads(c: &mut Case, progs: &[Prog], d: &Arc<ThreadData>, bound: usi
             let x = run_schedule(progs, &prefix, d);
             schedules += 1;
             c.exec();
+            heartbeat();
             if x.diverged {
                 return Err(format!("MACHINERY: replaying schedule prefix {prefix:?} diverged (uncontrolled nondeterminism)"));
             }
@@ -331,7 +332,7 @@ pub fn run(ctx: &mut Ctx) {
     let mut zero_env = Env::new();
     zero_env.guarded_alloc = Some(0);
     zero_env.out_fill = Some(0);
-    let sel = dfam::Sel { tiny: true, shapes: true, big: true, shape_cfg_stride: if quick { 9 } else { 1 } };
+    let sel = dfam::Sel { tiny: true, shapes: true, big: true, sweep: !quick, shape_cfg_stride: if quick { 9 } else { 1 } };
     dfam::for_each(ctx, &fams, sel, |ctx, it| {
         if quick && it.fam == "tiny" && (it.sched_idx + it.inp.data.len() + it.cfg.level as usize) % 8 != 0 {
             return;
@@ -463,6 +464,83 @@ pub fn run(ctx: &mut Ctx) {
                         Ok(())
                     },
                 );
+            }
+        }
+    }
+    // duplicated streams: what a copy (deflateCopy / inflateCopy) produces must not depend on what its freshly
+    // allocated memory held (the allocator pre-fills every block with a different byte in each twin)
+    {
+        let mut cdata = text(21, 1500);
+        cdata.extend(noise7(3, 1500));
+        cdata.extend(rep(b'q', 400));
+        let packed = run_deflate::<Ng>(&DCfg { level: 6, strategy: 0, wbits: 15, mem_level: 8, wrap: Wrap::Zlib }, &cdata, &DSched::one_shot(), &Env::new(), &DExtra::default(), None).expect("ref").out;
+        for level in 0..=9 {
+            for (wb, ml, st) in [(15, 8, 0), (-9, 1, 0), (31, 2, 1), (10, 1, 4), (-15, 9, 2), (15, 8, 3)] {
+                for cut in [1usize, 400, 1700, 3000] {
+                    ctx.case(
+                        "copy-different-garbage",
+                        || format!("deflateInit2(level={level}, windowBits={wb}, memLevel={ml}, strategy={st}) ; deflate({cut} bytes, NO_FLUSH) ; deflateCopy ; finish on the copy - allocator fill 0x00 / 0x01 / 0xFF / 0xA5"),
+                        |c| unsafe {
+                            let mut outs: Vec<(Vec<u64>, Vec<u8>)> = vec![];
+                            for g in [0x00u8, 0x01, 0xFF, 0xA5] {
+                                c.exec();
+                                let mut m = DMachine::init::<Rs>(level, wb, ml, st, &cdata, Strm::guarded(g)).map_err(|r| format!("init {r}"))?;
+                                m.step::<Rs>(MOp::Call { flush: Z_NO_FLUSH, inn: cut, room: AMPLE }, &menv);
+                                let mut k = m.copy::<Rs>(Strm::plain()).map_err(|r| format!("deflateCopy returned {r}"))?;
+                                m.end::<Rs>();
+                                let mut obs = vec![];
+                                for _ in 0..3 {
+                                    let o = k.step::<Rs>(MOp::Call { flush: Z_FINISH, inn: usize::MAX, room: AMPLE }, &menv);
+                                    obs.push(mix(o.ret as u64, mix(o.dout as u64, o.out_hash)));
+                                }
+                                k.end::<Rs>();
+                                outs.push((obs, k.out.clone()));
+                            }
+                            if outs.iter().any(|o| *o != outs[0]) {
+                                return Err("the output of a stream duplicated with deflateCopy depends on the contents of the memory the copy was allocated in".into());
+                            }
+                            c.outcome(hash_bytes(&outs[0].1));
+                            c.validated();
+                            Ok(())
+                        },
+                    );
+                }
+            }
+        }
+        for wb in [15, -15, 47] {
+            let z: Vec<u8> = if wb == -15 { packed[2..packed.len() - 4].to_vec() } else { packed.clone() };
+            for cut in [1usize, 10, 300, z.len() - 5] {
+                for room in [7usize, 259, AMPLE] {
+                    ctx.case(
+                        "copy-different-garbage",
+                        || format!("inflateInit2({wb}) ; inflate({cut} bytes, room {room}) ; inflateCopy ; rest on the copy - allocator fill 0x00 / 0x01 / 0xFF / 0xA5"),
+                        |c| unsafe {
+                            let mut outs: Vec<(Vec<u64>, Vec<u8>)> = vec![];
+                            for g in [0x00u8, 0x01, 0xFF, 0xA5] {
+                                c.exec();
+                                let mut m = IMachine::init::<Rs>(wb, &z, Strm::guarded(g)).map_err(|r| format!("init {r}"))?;
+                                m.step::<Rs>(MOp::Call { flush: Z_NO_FLUSH, inn: cut, room }, &menv);
+                                let mut k = m.copy::<Rs>(Strm::plain()).map_err(|r| format!("inflateCopy returned {r}"))?;
+                                m.end::<Rs>();
+                                let mut obs = vec![];
+                                for _ in 0..3 {
+                                    let o = k.step::<Rs>(MOp::Call { flush: Z_NO_FLUSH, inn: usize::MAX, room: AMPLE }, &menv);
+                                    obs.push(mix(o.ret as u64, mix(o.dout as u64, o.out_hash)));
+                                }
+                                let o = k.step::<Rs>(MOp::GetDict, &menv);
+                                obs.push(o.aux);
+                                k.end::<Rs>();
+                                outs.push((obs, k.out.clone()));
+                            }
+                            if outs.iter().any(|o| *o != outs[0]) {
+                                return Err("the output of a stream duplicated with inflateCopy depends on the contents of the memory the copy was allocated in".into());
+                            }
+                            c.outcome(hash_bytes(&outs[0].1));
+                            c.validated();
+                            Ok(())
+                        },
+                    );
+                }
             }
         }
     }
